@@ -881,7 +881,7 @@ async fn c13_poll_race<TC: Configuration>(cx: &mut Cx, k: usize, kind: u8) {
 /// C13 on a multi-thread runtime, nothing gated: readers (get_epoch_hash, lookup) run truly in parallel with a publisher
 /// on the SAME instance whose commits take a few milliseconds to reach the database; every answer must name a pair the
 /// directory published (and lookups must verify against it)
-fn c13_parallel<TC: Configuration>(cx: &mut Cx, publishes: usize, cached: bool, failing_commits: bool) {
+fn c13_parallel<TC: Configuration>(cx: &mut Cx, publishes: usize, cached: bool, failing_commits: bool, separate_reader: bool) {
     let cfg = cfg_name::<TC>();
     let rt = tokio::runtime::Builder::new_multi_thread().worker_threads(4).enable_all().build().unwrap();
     let res: Result<(Vec<[u8; 32]>, Vec<Vec<(u64, [u8; 32], bool, u8)>>, Vec<u64>), String> = rt.block_on(async {
@@ -896,16 +896,46 @@ fn c13_parallel<TC: Configuration>(cx: &mut Cx, publishes: usize, cached: bool, 
         }
         let pk = HardCodedAkdVRF {}.get_vrf_public_key().await.unwrap().as_bytes().to_vec();
         ctl.write_delay_ms.store(2, Ordering::SeqCst);
+        // the instance the requests go to: the publisher's own, or a second one (its own cache) with a change poller
+        let rdir = if separate_reader { gdir::<TC>(&db, true).await } else { dir.clone() };
+        let poller = if separate_reader {
+            let rd = rdir.clone();
+            Some(tokio::spawn(async move {
+                let _ = rd.poll_for_azks_changes(Duration::from_millis(1), None).await;
+            }))
+        } else {
+            None
+        };
         let done = Arc::new(AtomicBool::new(false));
+        let audits: Arc<std::sync::Mutex<Vec<(u64, akd::AppendOnlyProof)>>> = Arc::new(std::sync::Mutex::new(vec![]));
         let mut readers = vec![];
-        for ri in 0..3u8 {
-            let (d, done, pk, l) = (dir.clone(), done.clone(), pk.clone(), labels[ri as usize].clone());
+        for ri in 0..5u8 {
+            let audits = audits.clone();
+            let (d, done, pk, l) = (rdir.clone(), done.clone(), pk.clone(), labels[(ri % 3) as usize].clone());
             readers.push(tokio::spawn(async move {
                 let mut seen: Vec<(u64, [u8; 32], bool, u8)> = vec![];
                 while !done.load(Ordering::SeqCst) && seen.len() < 20000 {
                     if ri == 0 {
                         if let Ok(e) = d.get_epoch_hash().await {
                             seen.push((e.0, e.1, true, 0));
+                        }
+                    } else if ri == 3 {
+                        if let Ok((p, e)) = d.key_history(&AkdLabel(l.clone()), HistoryParams::Complete).await {
+                            let v = key_history_verify::<TC>(&pk, e.1, e.0, AkdLabel(l.clone()), p, HistoryVerificationParams::Default { history_params: HistoryParams::Complete }).is_ok();
+                            seen.push((e.0, e.1, v, 2));
+                        }
+                    } else if ri == 4 {
+                        // an audit of everything up to the epoch the instance reports, checked against that epoch's pair
+                        if let Ok(e) = d.get_epoch_hash().await {
+                            if e.0 >= 2 {
+                                if let Ok(p) = d.audit(1, e.0).await {
+                                    seen.push((e.0, e.1, p.proofs.len() as u64 == e.0 - 1, 3));
+                                    let mut a = audits.lock().unwrap();
+                                    if a.len() < 25 {
+                                        a.push((e.0, p));
+                                    }
+                                }
+                            }
                         }
                     } else if let Ok((p, e)) = d.lookup(AkdLabel(l.clone())).await {
                         let v = lookup_verify::<TC>(&pk, e.1, e.0, AkdLabel(l.clone()), p).is_ok();
@@ -934,6 +964,16 @@ fn c13_parallel<TC: Configuration>(cx: &mut Cx, publishes: usize, cached: bool, 
         for h in readers {
             all.push(h.await.map_err(|e| e.to_string())?);
         }
+        if let Some(p) = poller {
+            p.abort();
+        }
+        // the audit proofs served meanwhile must verify against the published hashes
+        let kept: Vec<(u64, akd::AppendOnlyProof)> = audits.lock().unwrap().drain(..).collect();
+        for (e, p) in kept {
+            if (e as usize) < hashes.len() && akd::auditor::audit_verify::<TC>(hashes[1..=e as usize].to_vec(), p).await.is_err() {
+                return Err(format!("an audit proof for epochs 1..{} served while a publish was running does not verify against the published hashes", e));
+            }
+        }
         Ok((hashes, all, rejected))
     });
     cx.stat("c13_parallel_runs");
@@ -943,7 +983,7 @@ fn c13_parallel<TC: Configuration>(cx: &mut Cx, publishes: usize, cached: bool, 
             for seen in &all {
                 *cx.stats.entry("c13_parallel_answers".to_string()).or_insert(0) += seen.len() as u64;
                 for (e, h, v, kind) in seen {
-                    let what = format!("[cfg {} cached {} multi-thread runtime, {} parallel to a publisher on the same instance whose commits take 2 ms{}]", cfg, cached, if *kind == 0 { "get_epoch_hash" } else { "lookup" }, if failing_commits { " and every second one is rejected by the database" } else { "" });
+                    let what = format!("[cfg {} cached {} multi-thread runtime, {} parallel to a publisher on {} whose commits take 2 ms{}]", cfg, cached, ["get_epoch_hash", "lookup", "key_history", "audit"][*kind as usize], if separate_reader { "another instance (the requests go to a cached instance with a change poller)" } else { "the same instance" }, if failing_commits { " and every second one is rejected by the database" } else { "" });
                     if (*e as usize) >= hashes.len() || hashes[*e as usize] != *h {
                         // the pair of an epoch whose commit the database rejected while the request ran (the request read the open
                         // transaction's log) - repaired by fix 0c951d0
@@ -1068,11 +1108,13 @@ pub fn run(seed: u64, tier: u32, which: &str) -> Cx {
         // readers truly parallel to a publisher on the same instance (multi-thread runtime, slow commits); with
         // commits that the database rejects every second time
         let n = if tier == 0 { 30 } else { 300 };
-        c13_parallel::<W>(&mut cx, n, true, false);
-        c13_parallel::<W>(&mut cx, n, false, false);
-        c13_parallel::<E>(&mut cx, n / 2, true, false);
-        c13_parallel::<W>(&mut cx, n, true, true);
-        c13_parallel::<W>(&mut cx, n, false, true);
+        c13_parallel::<W>(&mut cx, n, true, false, false);
+        c13_parallel::<W>(&mut cx, n, false, false, false);
+        c13_parallel::<E>(&mut cx, n / 2, true, false, false);
+        c13_parallel::<W>(&mut cx, n, true, true, false);
+        c13_parallel::<W>(&mut cx, n, false, true, false);
+        c13_parallel::<W>(&mut cx, n, false, false, true);
+        c13_parallel::<W>(&mut cx, n, true, true, true);
     }
     cx
 }
@@ -1363,9 +1405,11 @@ pub fn proto(seed: u64, tier: u32) -> Cx {
 pub fn c13par(_seed: u64, tier: u32) -> Cx {
     let mut cx = Cx::new();
     let n = if tier == 0 { 40 } else { 400 };
-    c13_parallel::<W>(&mut cx, n, true, false);
-    c13_parallel::<W>(&mut cx, n, false, false);
-    c13_parallel::<W>(&mut cx, n, true, true);
-    c13_parallel::<W>(&mut cx, n, false, true);
+    c13_parallel::<W>(&mut cx, n, true, false, false);
+    c13_parallel::<W>(&mut cx, n, false, false, false);
+    c13_parallel::<W>(&mut cx, n, true, true, false);
+    c13_parallel::<W>(&mut cx, n, false, true, false);
+    c13_parallel::<W>(&mut cx, n, false, false, true);
+    c13_parallel::<W>(&mut cx, n, true, true, true);
     cx
 }
